@@ -239,6 +239,35 @@ theorem shrink_step_is_max (row : List (Option α)) (nz : List β)
 
 end shrink
 
+/-! ### from positions to sample indices -/
+
+/-- Positions in a duplicate-free candidate list (`unlbld_mapping`, `mapping`, …) translate to sample indices
+without creating duplicates. -/
+theorem map_positions_valid (space : List Nat) (hs : space.Nodup) (picks : List Nat) (hp : picks.Nodup)
+    (hlt : ∀ p ∈ picks, p < space.length) :
+    (picks.map (fun p => space.getD p 0)).length = picks.length ∧
+    (picks.map (fun p => space.getD p 0)).Nodup ∧
+    ∀ i ∈ picks.map (fun p => space.getD p 0), i ∈ space := by
+  refine ⟨by simp, ?_, ?_⟩
+  · have inj : ∀ a b, a < space.length → b < space.length → space.getD a 0 = space.getD b 0 → a = b := by
+      intro a b h1 h2 hab
+      exact (List.getD_inj h1 h2 hs).mp hab
+    induction picks with
+    | nil => simp
+    | cons a as ih =>
+      rw [List.nodup_cons] at hp
+      rw [List.map_cons, List.nodup_cons]
+      refine ⟨?_, ih hp.2 (fun p hp' => hlt p (by simp [hp']))⟩
+      intro hin
+      obtain ⟨c, hc, hceq⟩ := List.mem_map.mp hin
+      have := inj c a (hlt c (by simp [hc])) (hlt a (by simp)) hceq
+      exact hp.1 (this ▸ hc)
+  · intro i hi
+    obtain ⟨p, hp', rfl⟩ := List.mem_map.mp hi
+    have h1 := hlt p hp'
+    simp only [List.getD_eq_getElem?_getD, List.getElem?_eq_getElem h1, Option.getD_some]
+    exact List.getElem_mem h1
+
 /-! ### non-vacuity -/
 
 example : probOkB (α := Rat) [0, 1/2, 0, 1/2] (3/4) = true ∧ choiceIdx (α := Rat) [0, 1/2, 0, 1/2] (3/4) = 3 := by
